@@ -33,7 +33,7 @@ var wkinds = []wkind{
 	{Name: "forinA2", Loop: true},             // 12 for a in [v, w] { . }                            (pool name as loop variable)
 	{Name: "case", Switch: true},              // 13 switch 1 { case 1: . }
 	{Name: "default", Switch: true},           // 14 switch 1 { case 2: default: . }
-	{Name: "try", TryB: true},                 // 15 try { . } catch { READ }
+	{Name: "try", TryB: true, Deep: true},     // 15 try { . } catch { READ }
 	{Name: "tryfin", TryB: true},              // 16 try { . } catch { READ } finally { READ }
 	{Name: "catch", Deep: true},               // 17 try { throw } catch e { . }
 	{Name: "catchA"},                          // 18 try { throw } catch a { . }                      (pool name as catch variable)
@@ -41,7 +41,7 @@ var wkinds = []wkind{
 	{Name: "finally", Deep: true},             // 20 try { } catch { } finally { . }
 	{Name: "finallyT"},                        // 21 try { var b = v; throw } catch { } finally { . }
 	{Name: "module"},                          // 22 module M { . }; READ M.a M.b
-	{Name: "func", Func: true},                // 23 func f() { . }; f()
+	{Name: "func", Func: true, Deep: true},    // 23 func f() { . }; f()
 	{Name: "funcA", Func: true},               // 24 func f(a) { . }; f(v)                            (pool name as parameter)
 	{Name: "anon", Func: true},                // 25 func() { . }()
 	{Name: "closure", Func: true},             // 26 g = func() { . }            ... called twice at the end of the program
@@ -67,6 +67,17 @@ var wkinds = []wkind{
 	// the loop body contains no other by-name call (the probes are inside the callees)
 	{Name: "rebindSet", Func: true}, // 41 func f() { READ O }; for i = 0; i < 2; i++ { f(); f = func() { . } }
 	{Name: "rebindVar", Func: true}, // 42 func f() { READ O }; for i = 0; i < 2; i++ { f(); var f = func() { . } }
+	// a function literal called on the spot whose ARGUMENT expressions mention the names of its parameters
+	{Name: "anonArgs", Func: true}, // 43 func(a, b) { READ Q; . }(b, a)
+	// a closure created one block BELOW an if block, outliving it; then another if statement; then the closure is called
+	{Name: "closureDeepIf", Func: true},              // 44 if true { var a = v; if true { g = func() { READ Q; . } } }; if true { var a = w; var b = x }   ... g called twice at the end
+	{Name: "closureDeepFor", Func: true, Deep: true}, // 45 the same with `for x in [v] { g = ... }` in place of the inner if
+	// ONE function literal evaluated twice in different scopes (a factory called twice), both closures called afterwards;
+	// one construct per shape class of the literal (the interpreter builds them through different adapters)
+	{Name: "factory0", Func: true, Deep: true}, // 46 t = nil; func mk(a) { t = func() { READ Q; . } }; mk(v); g = t; mk(w); h = t; g(); h()
+	{Name: "factory2", Func: true, Deep: true}, // 47 ... func(p, q) ...       g(0, 0); h(0, 0)
+	{Name: "factory5", Func: true},             // 48 ... func(p, q, u, v, w) ... g(0, 0, 0, 0, 0); ...
+	{Name: "factoryV", Func: true},             // 49 ... func(p...) ...       g(0); h(0)
 }
 
 // ---------- spine descriptor ----------
@@ -119,7 +130,7 @@ func (d desc) relevant() [nDims]bool {
 			rel[0] = true
 		case w == 8 || w == 9:
 			rel[1] = true
-		case w >= 10 && w <= 12, w >= 34 && w <= 36:
+		case w >= 10 && w <= 12, w >= 34 && w <= 36, w == 45:
 			rel[2] = true
 		case w >= 15 && w <= 21:
 			rel[3] = true
@@ -215,13 +226,24 @@ func (b *builder) construct(kind, k int, slot []*stmt) []*stmt {
 		return []*stmt{{Op: opFunc, Name: "f" + sfx, Params: []string{"a"}, Body: slot}, {Op: opCall, Name: "f" + sfx, Args: []*expr{cst(K + 5)}}}
 	case 25:
 		return []*stmt{{Op: opAnonCall, E: &expr{K: 'f', Fn: &fnlit{Body: slot}}}}
-	case 26, 27:
+	case 26, 27, 44, 45:
 		g := "g" + sfx
 		b.pre = append(b.pre, assign(g, &expr{K: 'z'}))
 		for _, tag := range []string{"G", "H"} {
 			b.late = append(b.late,
 				&stmt{Op: opTry, Body: []*stmt{{Op: opCall, Name: g}}},
 				read(tag+sfx))
+		}
+		if kind >= 44 {
+			mk := assign(g, &expr{K: 'f', Fn: &fnlit{Body: append([]*stmt{read("Q" + sfx)}, slot...)}})
+			inner := &stmt{Op: opIf, Arms: []arm{{tt, []*stmt{mk}}}}
+			if kind == 45 {
+				inner = &stmt{Op: opForIn, Name: "x" + sfx, Vals: []int64{K + 1}, Body: []*stmt{mk}}
+			}
+			return []*stmt{
+				{Op: opIf, Arms: []arm{{tt, []*stmt{{Op: opVar, Name: "a", E: cst(K + 6)}, inner}}}},
+				{Op: opIf, Arms: []arm{{tt, []*stmt{{Op: opVar, Name: "a", E: cst(K + 7)}, {Op: opVar, Name: "b", E: cst(K + 8)}}}}},
+			}
 		}
 		mk := assign(g, &expr{K: 'f', Fn: &fnlit{Body: slot}})
 		if kind == 26 {
@@ -284,6 +306,35 @@ func (b *builder) construct(kind, k int, slot []*stmt) []*stmt {
 		return []*stmt{
 			{Op: opFunc, Name: f, Body: []*stmt{read("O" + sfx)}},
 			{Op: opCFor, Name: "i" + sfx, N: 2, Body: []*stmt{{Op: opCall, Name: f}, re}},
+		}
+	case 43:
+		lit := &fnlit{Params: []string{"a", "b"}, Body: append([]*stmt{read("Q" + sfx)}, slot...)}
+		return []*stmt{{Op: opAnonCall, E: &expr{K: 'f', Fn: lit}, Args: []*expr{{K: 'n', N: "b"}, {K: 'n', N: "a"}}}}
+	case 46, 47, 48, 49:
+		t, g, h, mk := "t"+sfx, "g"+sfx, "h"+sfx, "mk"+sfx
+		var params []string
+		switch kind {
+		case 47:
+			params = []string{"p" + sfx, "q" + sfx}
+		case 48:
+			params = []string{"p" + sfx, "q" + sfx, "u" + sfx, "v" + sfx, "w" + sfx}
+		case 49:
+			params = []string{"p" + sfx}
+		}
+		var zeros []*expr
+		for range params {
+			zeros = append(zeros, cst(0))
+		}
+		lit := &fnlit{Params: params, VarArg: kind == 49, Body: append([]*stmt{read("Q" + sfx)}, slot...)}
+		return []*stmt{
+			assign(t, &expr{K: 'z'}),
+			{Op: opFunc, Name: mk, Params: []string{"a"}, Body: []*stmt{assign(t, &expr{K: 'f', Fn: lit})}},
+			{Op: opCall, Name: mk, Args: []*expr{cst(K + 1)}},
+			assign(g, &expr{K: 'n', N: t}),
+			{Op: opCall, Name: mk, Args: []*expr{cst(K + 2)}},
+			assign(h, &expr{K: 'n', N: t}),
+			{Op: opCall, Name: g, Args: zeros},
+			{Op: opCall, Name: h, Args: zeros},
 		}
 	}
 	panic("bad construct kind")
